@@ -12,6 +12,14 @@ IndexByDate, loglist3 TemporallyCompatible / Compatible and integration.NotAfter
 hour, second and nanosecond distances between an instant and each bound, at an ordinary instant and at the landmarks of
 the time machinery: 0000-01-01 and 9999-12-31T23:59:59Z (first / last instant a certificate can carry), 0001-01-01 (first
 protobuf Timestamp = zero time.Time), 1950 / 2050 (UTCTime <-> GeneralizedTime), Unix 0, 2038, 2262.
+
+The log-list filter is a FAMILY of entry points (Temporal.tla "log list filter: the API variants"): TemporallyCompatible,
+Compatible, RootCompatible alone and composed with TemporallyCompatible in both orders, each with root nil / CA / not a
+CA, certificate nil / present, and per log one state of knowledge in the roots collection (no entry, entry with the root,
+entry without it).  MCLogFilter.tla enumerates every log list of length <= 2 over instants 0..3 (logs without interval or
+with any interval, well-formed, empty or inverted), checks that in every variant the verdict on a log is InWindow and the
+root factor of the call (VariantIsWindow, VariantsAgree; NAMED CLAUSES RootClause, NilCertNothing) and exports the set of
+logs every call returns; harness/c18 TestReplayFilter makes every call on the real loglist3.LogList in every frame.
 """
 import json
 
@@ -33,6 +41,12 @@ ASSUME = [
     "a log-list entry has a temporal interval with both ends or none (the JSON schema has no one-sided interval)",
     "NAMED CLAUSES EmptyListRefused / EmptyShardRefused: the property does not mention the empty list and the empty "
     "interval [a, a); the specification records that the constructor refuses both",
+    "NAMED CLAUSES RootClause / NilCertNothing (log-list filter variants): the property says nothing about the root "
+    "arguments; as documented at loglist3.RootCompatible / Compatible a log without an entry in the roots collection "
+    "passes the root condition, a log with an entry passes when the entry contains the (CA) root, a root that is not a CA "
+    "returns nothing, Compatible without a root does not consult the collection, RootCompatible without a root keeps only "
+    "the logs without an entry; a call that takes a certificate returns nothing when given none.  An entry of the "
+    "collection whose pool is nil is not materialized",
 ]
 
 
@@ -41,6 +55,17 @@ def run(ctx, replay=None):
     if replay:
         with open(replay) as f:
             rp = json.load(f)
+        if "fcase" in rp["replay"]:
+            fcase = rp["replay"]["fcase"]
+            nt = len(next(iter(next(iter(fcase["keep"].values())).values()))) - 1
+            frames = rp["replay"].get("frames") or [{"at": "Mid", "pins": list(range(nt)), "boundMin": 0, "top": nt - 1}]
+            dim = {"variants": sorted(fcase["keep"]), "roots": sorted(next(iter(fcase["keep"].values()))),
+                   "states": ["unknown", "accepts", "rejects"], "top": nt - 1}
+            ctx.go_test("c18", run="TestReplayFilter$", name="c18-filter",
+                        env={"VERIF_FCASES": ctx.write_ndjson("replay-fcase.ndjson", [fcase]),
+                             "VERIF_FDIM": ctx.write_ndjson("replay-fdim.ndjson", [dim]),
+                             "VERIF_FRAMES": ctx.write_ndjson("frames.ndjson", frames), "VERIF_REPLAY_ONE": 1})
+            return
         case = rp["replay"]["case"]
         path = ctx.write_ndjson("replay.ndjson", [case])
         nt = len(case.get("idx") or [0] * 8)
@@ -83,6 +108,48 @@ def run(ctx, replay=None):
         ctx.log("%s: materializations per frame: %s" % (cfg, ", ".join(
             "%s=%d" % (f["at"], counters["frame:" + f["at"]]) for f in frames)))
         total += len(cases)
+    # 3. the API variants of the log-list filter: every log list x every call of the family
+    fruns = [("MCLogFilter.cfg", 4)]
+    if ctx.thorough():
+        fruns += [("MCLogFilterLen3.cfg", 3), ("MCLogFilterT5.cfg", 5)]
+    ftotal = 0
+    for cfg, nt in fruns:
+        r = ctx.tlc("common", "MCLogFilter", cfg, workers=1, timeout=1500)
+        fcases = r.records.get("FCASE", [])
+        if len(fcases) != r.distinct or not fcases:
+            raise Infra("expected one FCASE record per state, got %d for %d states" % (len(fcases), r.distinct))
+        dims = r.records.get("FDIM", [])
+        frames = r.records.get("FRAME", [])
+        if len(dims) != 1 or dims[0]["top"] != nt - 1 or not frames or any(f["top"] != nt - 1 for f in frames):
+            raise Infra("%s: no dimensions / frames for ticks 0..%d: %r %r" % (cfg, nt - 1, dims, frames))
+        dim = dims[0]
+        if not {"TC", "C", "TC.RC", "RC.TC", "RC"} <= set(dim["variants"]) or len(dim["roots"]) < 3 or len(dim["states"]) < 3:
+            raise Infra("the variant dimension of the specification has shrunk: %r" % dim)
+        # vacuity of the domain: some call keeps a log with an interval, some call drops one, and the variants differ
+        kept = sum(1 for c in fcases for v in c["keep"].values() for row in v.values() for cell in row if cell)
+        cells = sum(len(row) for c in fcases for v in c["keep"].values() for row in v.values())
+        if kept == 0 or kept == cells:
+            raise Infra("vacuous filter domain: %d of %d calls return a log" % (kept, cells))
+        ctx.log("%s: %d log lists, %d calls, %d of them return a log" % (cfg, len(fcases), cells, kept))
+        _, _, reports = ctx.go_test("c18", run="TestReplayFilter$", name="c18-filter-%d" % nt, timeout=2400,
+                                    env={"VERIF_FCASES": ctx.write_ndjson("fcases-%d.ndjson" % nt, fcases),
+                                         "VERIF_FDIM": ctx.write_ndjson("fdim-%d.ndjson" % nt, [dim]),
+                                         "VERIF_FRAMES": ctx.write_ndjson("fframes-%d.ndjson" % nt, frames)})
+        counters = {}
+        for rep in reports:
+            counters.update(rep.get("extra") or {})
+        missing = ["frame:" + f["at"] for f in frames if not counters.get("frame:" + f["at"])]
+        missing += ["variant:" + v for v in dim["variants"] if not counters.get("variant:" + v)]
+        missing += ["roots:" + s for s in dim["states"] if not counters.get("roots:" + s)]
+        if missing:
+            raise Infra("dimensions of the filter cases never materialized by the harness: %s" % ", ".join(missing))
+        ctx.log("%s: %d calls of the filter family on the real log list; per variant: %s" % (
+            cfg, counters.get("filter_calls", 0), ", ".join("%s=%d" % (v, counters["variant:" + v]) for v in dim["variants"])))
+        ftotal += len(fcases)
     ctx.exhaustive = {"domain": "all shard lists of length <= 3 over instants 0..7, bounds absent or 0..7"
-                                + ("; length <= 4 over instants 0..3" if ctx.thorough() else ""),
-                      "cases": total}
+                                + ("; length <= 4 over instants 0..3" if ctx.thorough() else "")
+                                + "; all log lists of length <= 2 over instants 0..3 (interval absent or any [s, e)) x roots "
+                                  "knowledge {no entry, accepts, rejects} x 5 filter entry points x root {nil, CA, not CA} x "
+                                  "certificate {nil, NotAfter at every instant}"
+                                + ("; log lists of length <= 3 over instants 0..2 and length <= 2 over instants 0..4" if ctx.thorough() else ""),
+                      "cases": total + ftotal}
